@@ -1,8 +1,8 @@
 (* C19 -- delete_symbol removes every trace of the symbol, and only that.
    Statements only.  Model: Sym/Delete.v (hand model of _modify/delete_symbols.py, run against the implementation);
    proofs: Sym/DeleteProofs.v. *)
-From Coq Require Import ZArith List Bool Arith.
-From GR Require Import Base.Result Sym.Delete Sym.DeleteProofs.
+From Coq Require Import ZArith List Bool Arith Sorting.Permutation.
+From GR Require Import Base.Result Sym.Delete Sym.DeleteProofs Sym.Retarget Sym.DeleteRequests.
 Import ListNotations.
 Open Scope Z_scope.
 
@@ -56,6 +56,21 @@ Theorem C19_version_requirements :
       exists vs0, In (lib, vs0) (d_vreqs s) /\ vs = filter (fun v => zmem v (map snd (d_ventries s'))) vs0 /\
                   (vs <> [] \/ filter (fun v => negb (zmem v (map snd (d_ventries s')))) vs0 = []).
 Proof. exact version_reqs_after. Qed.
+
+(* ===== the request layer (RewritingContext.delete_symbol; model Sym/DeleteRequests.v, run against a context) ===== *)
+(* what the context has recorded for a symbol after any sequence of requests: nothing when it was never asked for (requests for a
+   symbol of another module are refused and leave no trace), else `forced` exactly when every one of its requests was forced *)
+Theorem C19_requests_are_merged : forall in_module rs sym,
+  lookup (fst (delete_requests in_module rs)) sym =
+    match asked in_module rs sym with [] => None | fs => Some (forallb (fun b => b) fs) end.
+Proof. exact delete_requests_spec. Qed.
+Theorem C19_request_order_does_not_matter : forall in_module rs rs' sym,
+  Permutation rs rs' -> lookup (fst (delete_requests in_module rs)) sym = lookup (fst (delete_requests in_module rs')) sym.
+Proof. exact delete_requests_order_independent. Qed.
+Example C19_requests_example :
+  delete_requests (fun s => Nat.ltb s 5) [(1, true); (2, false); (1, false); (7, true); (2, true); (1, true)]%nat
+  = ([(1, false); (2, false)]%nat, [true; true; true; false; true; true]).
+Proof. vm_compute. reflexivity. Qed.
 
 Example C19_nonvacuous :
   exists s', delete_symbols [(1%nat, true)]
